@@ -81,19 +81,77 @@ def run(tier, seed):
     if body is None:
         raise AnalysisBroken('generation loop not found')
     in_body = lambda lst: [x for x in lst if x.id in body]
-    ids = [n for n in fevent_ins if n.id in body and 'ievent' in txt(n)]
+    # the record id: the first value inserted into the event stream inside the loop (whatever the variable is called, whatever
+    # the loop form); by identity of the stream handed to event::store
+    from ..rules import streams as _st
+    from ..rules.scopes import Locals as _Locals
+    Ld = _Locals(dr)
+    chs_ = _st.chains(dr)
+    ev_roots = {_st.root_of(c['args'][0])[1] for c in astu.calls(dr['body']) if c['k'] == 'MCall' and
+                c['callee']['qn'] == 'bxdecay0::event::store' and c.get('args')}
+    lines_in_body = {F.g.nodes[i].line for i in body}
+    idch = [c for c in chs_ if c['root'][1] in ev_roots and c['l'] in lines_in_body and
+            any(not _st.is_manip(o) for o in c['ops'])]
+    idvar = None
+    if len(idch) == 1:
+        first = [astu.strip_casts(o) for o in idch[0]['ops'] if not _st.is_manip(o)][0]
+        if first['k'] == 'Ref' and first.get('dk') == 'local':
+            idvar = first
+    ids = [n for n in fevent_ins if n.id in body and idvar is not None and n.line == idch[0]['l']]
+    tails = [n for n in F.g.nodes for h_ in n.succ if h_ == head.id and n.id in body]
+    every_iter = lambda x: all(F.dominates(x, t) for t in tails)
     oks = len(in_body(shoot)) == 1 and len(in_body(store)) == 1 and len(ids) == 1 and \
-        F.dominates(in_body(shoot)[0], ids[0]) and F.dominates(ids[0], in_body(store)[0])
+        F.dominates(in_body(shoot)[0], ids[0]) and F.dominates(ids[0], in_body(store)[0]) and every_iter(in_body(store)[0])
     rep.add('LOOP.shape', 'one-record-per-iteration', where(dr, head.line),
-            'each iteration: shoot -> `fevent << ievent` -> store (exactly one of each)', oks)
-    okc = False
-    for n in astu.walk(dr['body']):
-        if n['k'] == 'For' and n.get('init') and n['init']['k'] == 'Decl' and n['init']['vars'][0]['name'] == 'ievent':
-            v = n['init']['vars'][0]
-            okc = astu.num_value(v.get('init')) == 0 and _bound_is_nb_events(dr, n['c']) and \
-                n['inc']['k'] == 'Un' and n['inc']['op'] == '++' and \
-                not any(r.get('name') == 'ievent' for r, how, node in statics.written_refs(n['body']))
-    rep.add('LOOP.shape', 'ids-consecutive-from-0', where(dr, head.line), 'ievent runs 0, 1, ... nb_events-1', bool(okc))
+            'each iteration: shoot -> `<event stream> << id` -> store (exactly one of each, on every path round the loop)', oks)
+    okc, whyc = False, None
+    if idvar is None:
+        whyc = 'the record id inserted into the event stream is not a local variable'
+    else:
+        vname = idvar['name']
+        defs_in = [n for n in F.g.nodes if n.id in body and n.kind == 'assign' and n.stmt[1] == ('var', vname)]
+        defs_out = [n for n in F.g.nodes if n.id not in body and n.kind == 'assign' and n.stmt[1] == ('var', vname)]
+        plus1 = len(defs_in) == 1 and ir.fmt(defs_in[0].stmt[2]).replace(' ', '') in ('(%s+1)' % vname, '(1+%s)' % vname)
+        # start value s (the one definition outside the loop, dominating the head)
+        s0 = None
+        if len(defs_out) == 1 and defs_out[0].stmt[2][0] == 'num' and F.dominates(defs_out[0], head):
+            s0 = defs_out[0].stmt[2][1]
+        # inserted value v + c, read off the insertion node
+        cofs = None
+        if len(ids) == 1 and ids[0].kind == 'call':
+            for x in ir.subexprs(('op', 'wrap') + tuple(ids[0].stmt[2])):
+                if x == ('var', vname) and cofs is None:
+                    cofs = 0
+                if x[0] == 'op' and x[1] in ('-', '+') and len(x) == 4 and x[2] == ('var', vname) and x[3][0] == 'num':
+                    cofs = -x[3][1] if x[1] == '-' else x[3][1]
+        elif len(ids) == 1:
+            cofs = 0          # an `io` node: the operand is the variable itself (checked through the chain above)
+        # the increment runs on every path round the loop, after the insertion
+        order = plus1 and len(ids) == 1 and every_iter(defs_in[0]) and not F.dominates(defs_in[0], ids[0])
+        exits = [b for b in F.nodes(kind='branch') if b.id in body and any(x not in body for x in b.succ)]
+
+        def bound(c):
+            """('<' | '<=', is-nb_events)"""
+            if not (c[0] == 'op' and c[1] in ('<', '<=') and c[2] == ('var', vname)):
+                return None
+            b_ = c[3]
+            if b_[0] == 'fld' and 'nb_events' in ir.fmt(b_):
+                return c[1]
+            if b_[0] == 'var':
+                dd = [n for n in F.g.nodes if n.kind == 'assign' and n.stmt[1] == b_]
+                if len(dd) == 1 and dd[0].stmt[2][0] == 'fld' and 'nb_events' in ir.fmt(dd[0].stmt[2]):
+                    return c[1]
+            return None
+        rel = bound(exits[0].stmt[1]) if len(exits) == 1 else None
+        okb_ = rel is not None
+        # first id = s + c = 0; number of iterations = nb_events: s = 0 with `<`, s = 1 with `<=`
+        start0 = s0 is not None and cofs is not None and s0 + cofs == 0 and ((rel == '<' and s0 == 0) or (rel == '<=' and s0 == 1))
+        okc = bool(plus1 and start0 and order and okb_)
+        if not okc:
+            whyc = 'id variable `%s`: starts at 0: %s; one `+ 1` per iteration, after the insertion: %s; the loop ends on `%s < nb_events` only: %s' % (
+                vname, bool(start0), bool(order), vname, bool(okb_))
+    rep.add('LOOP.shape', 'ids-consecutive-from-0', where(dr, head.line), 'the record id runs 0, 1, ... nb_events-1: it starts at 0, is '
+            'inserted and then incremented once on every path round the loop, and the loop ends on `id < nb_events` only', bool(okc), whyc)
     # ---- determinism
     progkeys = [k for k, f in prog.functions.items() if '/programs/' in f['file']]
     ent = [s for s in statics.effect_sites(prog, prog.functions.keys()) if s[3] == 'entropy']
@@ -186,8 +244,18 @@ def run(tier, seed):
             'the deviate engine is constructed from _config_.seed only', okeng)
     timer = [n for n in F.g.nodes if n.stmt is not None and n.kind != 'io' and 'decay_timer' in ir.fmt_stmt(n.stmt)
              and 'generator' in ir.fmt_stmt(n.stmt) and n.id in body]
-    okt2 = bool(timer) and all(any(b.kind == 'branch' and 'activity' in ir.fmt(b.stmt[1]) and b.succ[0] != b.succ[1] and
-                                   F.dominates(F.g.nodes[b.succ[0]], t) for b in F.g.nodes) for t in timer)
+    def _guarded_by_activity(t):
+        # under an `if` on the activity, or in the arm of a conditional expression whose test is on the activity
+        if any(b.kind == 'branch' and 'activity' in ir.fmt(b.stmt[1]) and b.succ[0] != b.succ[1] and
+               (F.dominates(F.g.nodes[b.succ[0]], t) or F.dominates(F.g.nodes[b.succ[1]], t)) and not
+               (F.dominates(F.g.nodes[b.succ[0]], t) and F.dominates(F.g.nodes[b.succ[1]], t)) for b in F.g.nodes):
+            return True
+        for x in ir.subexprs(('op', 'wrap') + tuple(y for y in t.stmt[1:] if isinstance(y, tuple))):
+            if x[0] == 'op' and x[1] == '?:' and len(x) == 5 and 'activity' in ir.fmt(x[2]) and \
+                    ('decay_timer' in ir.fmt(x[3])) != ('decay_timer' in ir.fmt(x[4])):
+                return True
+        return False
+    okt2 = bool(timer) and all(_guarded_by_activity(t) for t in timer)
     others = [n for n in F.g.nodes if n.id in body and n.stmt is not None and n.kind != 'io' and
               ('generator' in ir.fmt_stmt(n.stmt) or 'prng' in ir.fmt_stmt(n.stmt)) and n not in timer and n not in shoot]
     rep.add('DETERMINISM', 'engine-consumers', where(dr, timer[0].line if timer else dr['l']),
